@@ -128,7 +128,7 @@ PLAN = {
                          [("poll", 260), ("reorg", 120), ("reobs", 260), ("apifail", 80)])},
     "C09": {"quick": (["junk_quick", "live_quick"], [("live", 8, 20, {"MaxReq": 0, "MaxLook": 0, "Mainnets": "{FALSE}"})],
                       [("race", 18), ("junk", 26)]),
-            "thorough": (["junk_thorough", "live_thorough"], [("live", 100, 24, {"MaxReq": 0, "MaxLook": 0, "Mainnets": "{FALSE}"}),
+            "thorough": (["junk_thorough", "live_thorough", "live_quick"], [("live", 100, 24, {"MaxReq": 0, "MaxLook": 0, "Mainnets": "{FALSE}"}),
                                                               ("junk", 100, 24, {"MaxReq": 0, "MaxLook": 0, "Mainnets": "{FALSE}"})],
                          [("race", 300), ("junk", 420)])},
 }
